@@ -5,8 +5,8 @@
    exact arithmetic the step satisfies the box exactly.  In binary64 the single rounding of xnew - xopt can move xopt + d one
    ulp outside (known finding F30); the point the solver evaluates is clipped again (C01). *)
 From Coq Require Import ZArith List Bool String Lia Reals Lra.
-Require Import DV.Base.Prelude DV.Base.F64 DV.Base.OrdLaws DV.Spec.Schema DV.Lib.Tables.
-From G Require Import Gen_util Gen_solver Gen_tables.
+Require Import DV.Base.Prelude DV.Base.F64 DV.Base.OrdLaws DV.Spec.Schema DV.Lib.MSpec DV.Lib.MTrs DV.Lib.Tables.
+From G Require Import Gen_util Gen_trust_region Gen_solver Gen_tables.
 Import ListNotations.
 
 Section C12.
@@ -42,6 +42,32 @@ Theorem C12_step_definition : forall `{A : Arith} d xopt sl su xbdi,
   py_tr_d_within_bounds d xopt sl su xbdi = vmap2 sub (py_tr_d_within_bounds_xnew d xopt sl su xbdi) xopt.
 Proof. reflexivity. Qed.
 
+(* ---- the whole of TRSBOX is regenerated as functions (trsbox, alt_trust_step, d_within_bounds); they are equal to the frozen
+   reference models of DV.Lib.MTrs, and the regenerated d_within_bounds is the function the box theorems above are about ---- *)
+Lemma d_within_bounds_eq `{A : Arith} : @py_trust_region_d_within_bounds A = @s_d_within_bounds A. Proof. reflexivity. Qed.
+Lemma alt_trust_step_eq `{A : Arith} : @py_trust_region_alt_trust_step A = @s_alt_trust_step A. Proof. reflexivity. Qed.
+Lemma trsbox_eq `{A : Arith} : @py_trust_region_trsbox A = @s_trsbox A. Proof. reflexivity. Qed.
+Lemma mask_bounds_bsel `{A : Arith} : forall (xn sl su : vec) (xb : list Z),
+  List.length sl = List.length xn -> List.length su = List.length xn -> List.length xb = List.length xn ->
+  bsel (zmask (fun z_ => Z.eqb z_ 1) xb) su (bsel (zmask (fun z_ => Z.eqb z_ (-1)) xb) sl xn) = mask_bounds xn sl su xb.
+Proof.
+  induction xn as [|x xn IH]; intros [|l sl] [|u su] [|b xb] H1 H2 H3; try discriminate; try reflexivity.
+  cbn [zmask map bsel mask_bounds]. rewrite <- IH by (cbn in *; lia). unfold zmask.
+  destruct (Z.eqb_spec b (-1)) as [->|]; [reflexivity|]. destruct (Z.eqb b 1); reflexivity.
+Qed.
+Theorem C12_the_step_function_is_the_one_proved_about : forall `{A : Arith} d xopt sl su xbdi,
+  List.length d = List.length xopt -> List.length sl = List.length xopt -> List.length su = List.length xopt -> List.length xbdi = List.length xopt ->
+  py_trust_region_d_within_bounds d xopt sl su xbdi = py_tr_d_within_bounds d xopt sl su xbdi.
+Proof.
+  intros A0 d xopt sl su xbdi Hd Hl Hu Hb. unfold py_trust_region_d_within_bounds, py_tr_d_within_bounds, py_tr_d_within_bounds_xnew. cbv zeta.
+  set (x0 := vmap2 npmax (vmap2 npmin (vmap2 add xopt d) su) sl).
+  assert (Hx0: List.length x0 = List.length xopt) by (unfold x0; rewrite !vmap2_length; lia).
+  assert (Hm: forall f, List.length (zmask f xbdi) = List.length xopt) by (intros f; unfold zmask; rewrite map_length; exact Hb).
+  rewrite (bscatter_bfilt x0 sl); [|lia|rewrite Hm; lia].
+  rewrite bscatter_bfilt; [|rewrite bsel_length; lia|rewrite bsel_length, Hm; lia].
+  rewrite mask_bounds_bsel by lia. reflexivity.
+Qed.
+
 (* tables: every return of trsbox and alt_trust_step goes through d_within_bounds (or forwards alt_trust_step's own result) *)
 Open Scope string_scope.
 Definition step_return_ok (r : rsite) : bool :=
@@ -61,3 +87,4 @@ Proof. vm_compute. reflexivity. Qed.
 Print Assumptions C12_new_point_is_in_the_box_exactly.
 Print Assumptions C12_step_reaches_new_point_exactly.
 Print Assumptions C12_every_return_is_clipped.
+Print Assumptions C12_the_step_function_is_the_one_proved_about.
